@@ -300,6 +300,112 @@ def defaultWeights (ofInt : Int → K) (sz sy sx : K) : Img K := fun z y x =>
   if z == 0 && y == 0 && x == 0 then 0
   else sx / Transc.sqrt (sq (ofInt x * sx) + sq (ofInt y * sy) + sq (ofInt z * sz))
 
+/-! ### the prior OBJECT: members that outlive a call (QuadraticPrior / RelativeDifferencePrior / LogcoshPrior)
+
+`weights` is a `mutable` member that is filled in lazily by whichever API function is called first
+(`if (weights.get_length() == 0) compute_weights(weights, <image>.get_grid_spacing(), only_2D);`), AFTER the early return for a zero
+penalisation factor.  The block occurs in
+QuadraticPrior.cxx:244 (`compute_value`), :317 (`compute_gradient`), :405 (`compute_Hessian`), :477 (`parabolic_surrogate_curvature`),
+:554 (`add_multiplication_with_approximate_Hessian`), :621 (`accumulate_Hessian_times_input`),
+RelativeDifferencePrior.cxx:315/390/473/552, LogcoshPrior.cxx:262/332/415/485/553.  The grid spacing is that of
+`current_image_estimate` (value, gradient, Hessian row, surrogate) resp. of `output` (approximate Hessian, Hessian times input).
+Nothing ever empties `weights` again except `set_weights` with an empty array and `set_defaults`: in particular `set_up` does not. -/
+
+/-- the members of a neighbourhood prior that the API functions read or write -/
+structure NbPrior (K : Type) where
+  /-- 0 = Quadratic, 1 = RDP, 2 = Logcosh -/
+  kind : Nat
+  only2D : Bool
+  pf : K
+  gamma : K
+  eps : K
+  scalar : K
+  /-- index range of `weights`; `weights.get_length() == 0` iff `wb.z1 < wb.z0` -/
+  wb : Box
+  w : Img K
+  kappa : Option (Img K)
+
+/-- the index range of an empty `Array<3,float>` as the harness prints it -/
+def emptyBox : Box := ⟨0, -1, 0, -1, 0, -1⟩
+
+/-- `weights.get_length() == 0` -/
+def weightsEmpty (wb : Box) : Bool := decide (wb.z1 < wb.z0)
+
+/-- the constructors `QuadraticPrior(only_2D, pf)`, `RelativeDifferencePrior(only_2D, pf, gamma, epsilon)`,
+    `LogcoshPrior(only_2D, pf, scalar)`: no weights, no kappa; `only_2D` as `ctorOnly2D` says -/
+def NbPrior.ctor (kind : Nat) (only2DArg : Bool) (pf γ ε s : K) : NbPrior K :=
+  { kind := kind, only2D := ctorOnly2D kind only2DArg, pf := pf, gamma := γ, eps := ε, scalar := s,
+    wb := emptyBox, w := fun _ _ _ => 0, kappa := none }
+
+/-- `if (weights.get_length() == 0) compute_weights(weights, grid_spacing, only_2D);` — `dflt sz sy sx` are the values
+    `compute_weights` stores (`defaultWeights`; a parameter because the driver evaluates them in binary64 also for the exact-`Rat` model) -/
+def NbPrior.lazyWeights (dflt : K → K → K → Img K) (o : NbPrior K) (sz sy sx : K) : NbPrior K :=
+  if weightsEmpty o.wb then { o with wb := defaultWeightsBox o.only2D, w := dflt sz sy sx } else o
+
+/-- the state of the object after a call of any of the API functions with an image of grid spacing `(sz, sy, sx)`:
+    `if (penalisation_factor == 0) { …; return; }` comes first, so nothing is computed for a zero penalisation factor -/
+def NbPrior.afterCall (dflt : K → K → K → Img K) (o : NbPrior K) (sz sy sx : K) : NbPrior K :=
+  if o.pf == 0 then o else o.lazyWeights dflt sz sy sx
+
+/-- every API function: the lazy block, then the loops (`qValue`, `grad`, `hessRow`, `hessTimes`, … above) on the members as they are
+    then; returns the object as it is left behind and the result -/
+def NbPrior.call {α : Type} (dflt : K → K → K → Img K) (o : NbPrior K) (sz sy sx : K) (loops : NbPrior K → α) : NbPrior K × α :=
+  let o' := o.afterCall dflt sz sy sx
+  (o', loops o')
+
+/-- `set_weights(w)`: `this->weights = w` (an empty array makes the next call compute the default weights again) -/
+def NbPrior.setWeights (o : NbPrior K) (wb : Box) (w : Img K) : NbPrior K := { o with wb := wb, w := w }
+/-- `set_kappa_sptr` -/
+def NbPrior.setKappa (o : NbPrior K) (κ : Option (Img K)) : NbPrior K := { o with kappa := κ }
+/-- `set_penalisation_factor` (GeneralisedPrior.inl:41) -/
+def NbPrior.setPf (o : NbPrior K) (pf : K) : NbPrior K := { o with pf := pf }
+/-- `RelativeDifferencePrior::set_gamma` / `set_epsilon`, `LogcoshPrior::set_scalar` -/
+def NbPrior.setGamma (o : NbPrior K) (v : K) : NbPrior K := { o with gamma := v }
+def NbPrior.setEps (o : NbPrior K) (v : K) : NbPrior K := { o with eps := v }
+def NbPrior.setScalar (o : NbPrior K) (v : K) : NbPrior K := { o with scalar := v }
+/-- `set_up(target)` (QuadraticPrior.cxx:106-113, RelativeDifferencePrior.cxx:110-117): only `_already_set_up = true`; the weights — also
+    those computed lazily from the grid spacing of an EARLIER target — stay -/
+def NbPrior.setUp (o : NbPrior K) : NbPrior K := o
+
+/-! ### weights given with the `weights :=` keyword (`post_processing`) -/
+
+/-- `post_processing` (QuadraticPrior.cxx:76-80, 84-88, 91-95): an array dimension with `size` elements (parsed with indices
+    `0 .. size-1`) gets `min_index = -static_cast<int>(size / 2)`; the elements keep their order, so the last index is
+    `min_index + size - 1`: `-h .. h` for `size = 2h+1`, `-h .. h-1` for `size = 2h` ("even number of weights … I'll (effectively) make
+    this odd by appending a 0 at the end") -/
+def parsedRange (size : Nat) : Int × Int := (-((size / 2 : Nat) : Int), -((size / 2 : Nat) : Int) + (size : Int) - 1)
+
+/-- `this->weights.is_regular()`: all rows have the same length, all planes the same number of rows -/
+def isRegular {α : Type} (a : List (List (List α))) : Bool :=
+  match a with
+  | [] => true
+  | p :: _ =>
+    a.all (fun q => q.length == p.length) &&
+    (match p with
+     | [] => true
+     | r :: _ => a.all fun q => q.all fun r' => r'.length == r.length)
+
+/-- the weights after parsing `weights := {{{…},…},…}` (`a[z][y][x]`, indices from 0) and `post_processing`: `none` = parse error
+    ("only supports regular arrays"); an empty array stays empty (default weights will be computed) -/
+def parsedWeights (a : List (List (List K))) : Option (Box × Img K) :=
+  if a.isEmpty then some (emptyBox, fun _ _ _ => 0)
+  else if !isRegular a then none
+  else
+    let nz := a.length
+    let ny := (a.headD []).length
+    let nx := ((a.headD []).headD []).length
+    let rz := parsedRange nz; let ry := parsedRange ny; let rx := parsedRange nx
+    some (⟨rz.1, rz.2, ry.1, ry.2, rx.1, rx.2⟩,
+          fun z y x => (((a.getD (z - rz.1).toNat []).getD (y - ry.1).toNat []).getD (x - rx.1).toNat 0))
+
+/-- `parse()` of a default-constructed object with the keys `penalisation factor`, `only 2D`, `gamma value`, `epsilon value`, `scalar`,
+    `weights` (QuadraticPrior.cxx:40-104 and copies): here `only 2D` is honoured by all three classes; kappa is read from
+    `kappa filename` by `post_processing` (modelled as data) -/
+def NbPrior.parsed (kind : Nat) (only2D : Bool) (pf γ ε s : K) (a : List (List (List K))) (κ : Option (Img K)) : Option (NbPrior K) :=
+  match parsedWeights a with
+  | none => none
+  | some (wb, w) => some { kind := kind, only2D := only2D, pf := pf, gamma := γ, eps := ε, scalar := s, wb := wb, w := w, kappa := κ }
+
 /-! ### PLSPrior -/
 
 /-- `PLSPrior::compute_image_gradient_element` (PLSPrior.cxx:309-357): forward differences, 0 where `i+1 > max_i` -/
